@@ -415,6 +415,19 @@ def _vec_index_range(ctx, a, ty, c):
     return Ref(Cell(Obj("opslice", "[Rc<dyn Opcode>]", base=v, lo=lo, hi=hi), "slice"), ())
 
 
+@summary(r"^<Vec<.*> as Index<(std::ops::|core::ops::)?RangeFrom<usize>>>::index$|^core::slice::index::<impl Index<(std::ops::|core::ops::)?RangeFrom<usize>> for \[.*\]>::index$", first=True)
+def _vec_index_from(ctx, a, ty, c):
+    v = _unwrap_rc(ctx, a[0])
+    if not (isinstance(v, Obj) and v.kind == "vec" and getattr(ctx, "vec_index_panics", False)):
+        return NotImplemented
+    lo = ctx.force(a[1].fields[0]).e
+    n = vec_len(v)
+    ok_ = z3.ULE(lo, n)
+    if ctx.branch([ok_, z3.Not(ok_)]) == 1:
+        raise PathEnd("panic", "index out of bounds: range start beyond the length of a Vec of symbolic length")
+    return Ref(Cell(Obj("vec", "[%s]" % v.elem_ty, name=v.name + "[lo..]", base_len=n - lo, pushed=[], elem_ty=v.elem_ty), "slice"), ())
+
+
 @summary(r"^core::slice::<impl \[.*\]>::first$", first=True)
 def _slice_first(ctx, a, ty, c):
     v = load(ctx, a[0])
